@@ -42,6 +42,13 @@ def generate(rnd, tier):
         if rnd.random() < 0.25:
             # the same widget object rendered at a sequence of widths (narrower, wider, again)
             cases.append({"op": "textseq", "text": t, "widths": [max(1, w), rnd.randint(1, 120), max(1, w), rnd.randint(1, 12)]})
+    # a TextWidget rendered by a container (unnumbered list, window): afterwards the widget itself still shows its own wrapped text within the width it was given
+    from harness.gen.trees import gen_text
+    for _ in range(400 if tier == "quick" else 4000):
+        k = rnd.randint(1, 4); sp = rnd.choice([0, 1, 3]); w = rnd.randint(4, 60)
+        items = [["text", gen_text(rnd) or "x"] for _ in range(rnd.randint(1, 8))]
+        tree = rnd.choice([["list", rnd.random() < 0.4, k, None, sp, None, items], ["window", rnd.choice([None, "Title"]), items]])
+        cases.append({"op": "tree", "tree": tree, "ops": [["render", w]]})
     return [with_cc(c) for c in cases]
 
 
@@ -72,6 +79,15 @@ def simple_greedy(line, w):
 
 
 def monitor(case, obs):
+    if case["op"] == "tree":
+        o = obs[-1]; t = case["tree"]; w = case["ops"][-1][1]
+        if "err" in o: return None
+        wi = w if t[0] == "window" else int((w - (t[2] - 1) * t[4]) / t[2])
+        items = t[2] if t[0] == "window" else t[6]
+        for it, lines in zip(items, o["nodes"]):
+            v = monitor({"op": "text", "text": it[1], "w": wi, "cc": case.get("cc")}, {"lines": lines, "cur": None})
+            if v: return "text widget %r rendered at width %d inside a %s, what the widget shows afterwards: %s" % (it[1][:30], wi, t[0], v)
+        return None
     if case["op"] == "textseq":
         # every render of the same object must satisfy the property for its own width
         for w, o in zip(case["widths"], obs):
